@@ -193,6 +193,19 @@ def check_missing_param(ctx, spec, rng):
     ctx.begin_case({"spec": s2, "dropped": drop})
     ctx.evaluated()
     ctx.count("missing-parameter")
+    # ... also on a model built without initialisation and then used several times (a retry after the first error)
+    from bioscrape.simulator import ModelCSimInterface
+    Mu = build_model(s2, initialize=False)
+    for attempt in (1, 2, 3):
+        try:
+            ModelCSimInterface(Mu)
+            ctx.violation("missing-param/accepted-on-retry", "attempt %d to put a model whose parameter %s has no value behind an interface was not refused" % (attempt, drop),
+                          {"spec": s2, "dropped": drop, "attempt": attempt})
+            return
+        except ValueError as e:
+            if "Unspecified Parameters" not in str(e):
+                ctx.violation("missing-param/other-error", "model with unset parameter %s failed with an unrelated error: %s" % (drop, e), {"spec": s2})
+                return
     try:
         M = build_model(s2)
     except ValueError as e:
